@@ -186,6 +186,13 @@ func translateIndex(ctx context.Context, indexPath string, primary primary.Prima
 
 		indexKey, err := primary.GetIndexKey(rec.Block)
 		if err != nil {
+			if errors.Is(err, types.ErrOutOfBounds) {
+				// The index record refers to a location that is not in the
+				// primary. Drop the record, the same as is done when a lookup
+				// finds an unusable location.
+				log.Errorw("Index has unusable primary location, dropping index record", "err", err)
+				continue
+			}
 			return fmt.Errorf("cannot get old index key: %w", err)
 		}
 
